@@ -113,6 +113,7 @@ type Ctx struct {
 	RunModule             string // Coq module with `case`, `check_case`
 	ShardSize             int
 	Extra                 map[string]any
+	Imports               []string // extra TT modules the case files need
 }
 
 func NewCtx(id string, seed uint64, tier, out, replay string, scale float64) *Ctx {
@@ -233,7 +234,7 @@ func (c *Ctx) Finish() error {
 			return err
 		}
 		bw := bufio.NewWriter(f)
-		fmt.Fprintf(bw, "From Coq Require Import List ZArith NArith String.\nFrom TT Require Import Base.Verdict Run.%s.\nImport ListNotations.\n", c.RunModule)
+		fmt.Fprintf(bw, "From Coq Require Import List ZArith NArith String.\nFrom TT Require Import Base.Verdict Base.Str %s Run.%s.\nImport ListNotations.\n", strings.Join(c.Imports, " "), c.RunModule)
 		fmt.Fprintf(bw, "Definition cases : list case := [\n")
 		for i := start; i < end; i++ {
 			if i > start {
